@@ -85,3 +85,13 @@ def rel_err(a, b, floor=1e-300):
   if a.size == 0:
     return 0.0
   return float(np.max(np.abs(a - b)) / (np.max(np.abs(b)) + floor))
+
+
+def release_compiled_code():
+  """Long shards compile thousands of XLA programs; their machine code is never freed and LLVM eventually fails with
+  'Cannot allocate memory' (the worker then dies with SIGSEGV).  Dropping JAX's compilation caches every few cases keeps
+  the workers' footprint bounded."""
+  import gc
+  import jax
+  jax.clear_caches()
+  gc.collect()
